@@ -374,6 +374,21 @@ tb_done:
 		KSI_TreeBuilder_free(b);
 		return rc ? rc : firsterr;
 	}
+	if (!strcmp(c0, "chainagg")) {
+		/* chainagg <c> <s> <lvlA> <lvlB>: the first aggregation chain OBJECT of the signature is aggregated from level A, then from level B; a failing call is repeated once on the same object */
+		KSI_Signature *sg = sigs[atoi(tok[2])]; KSI_AggregationHashChain *ch = NULL; int lv[2], k, rc = 0, firsterr = 0, nfail = 0;
+		lv[0] = atoi(tok[3]); lv[1] = atoi(tok[4]);
+		if (!sg || KSI_AggregationHashChainList_elementAt(sg->aggregationChainList, 0, &ch) != KSI_OK || !ch) { kx_out(" stage=nochain"); return -2; }
+		for (k = 0; k < 2; k++) { KSI_DataHash *h = NULL; int ol = -1; const unsigned char *imp; size_t il;
+			rc = KSI_AggregationHashChain_aggregate(ch, lv[k], &ol, &h);
+			if (rc) { if (!firsterr) firsterr = rc; nfail++; rc = KSI_AggregationHashChain_aggregate(ch, lv[k], &ol, &h); }
+			if (rc) break;
+			KSI_DataHash_getImprint(h, &imp, &il); kx_outhex(k ? "b" : "a", imp, il); kx_out(" %s=%d", k ? "blevel" : "alevel", ol);
+			KSI_DataHash_free(h); }
+		if (!rc) kx_out(" completed=1");
+		kx_out(" failed_calls=%d", nfail);
+		return rc ? rc : firsterr;
+	}
 	if (!strcmp(c0, "siginfo")) {
 		KSI_Signature *s = sigs[atoi(tok[1])]; KSI_DataHash *h = NULL; KSI_Integer *t = NULL; const unsigned char *imp; size_t il; int rc;
 		rc = KSI_Signature_getDocumentHash(s, &h); if (rc == KSI_OK && h) { KSI_DataHash_getImprint(h, &imp, &il); kx_outhex("doc", imp, il); } else kx_out(" doc=ERR%d", rc);
@@ -395,6 +410,13 @@ tb_done:
 		for (i = 2; i < ntok && n < 15; i++) { eq = strchr(tok[i], '='); if (!eq) continue; *eq = 0; arr[n].oid = tok[i]; arr[n].val = eq + 1; n++; }
 		arr[n].oid = NULL; arr[n].val = NULL;
 		return KSI_CTX_setDefaultPubFileCertConstraints(ctxs[atoi(tok[1])], arr); }
+	if (!strcmp(c0, "pubfileconstraints")) { /* pubfileconstraints <p> clear | <oid=value ...>: file specific constraints; clear = KSI_PublicationsFile_setCertConstraints(pf, NULL) */
+		KSI_CertConstraint arr[16]; int i, n = 0; char *eq; KSI_PublicationsFile *p = pubfiles[atoi(tok[1])]; KSI_CertConstraint *got = NULL; int rc;
+		if (ntok > 2 && !strcmp(tok[2], "clear")) rc = KSI_PublicationsFile_setCertConstraints(p, NULL);
+		else { for (i = 2; i < ntok && n < 15; i++) { eq = strchr(tok[i], '='); if (!eq) continue; *eq = 0; arr[n].oid = tok[i]; arr[n].val = eq + 1; n++; }
+			arr[n].oid = NULL; arr[n].val = NULL; rc = KSI_PublicationsFile_setCertConstraints(p, arr); }
+		if (KSI_PublicationsFile_getCertConstraints(p, &got) == KSI_OK) { n = 0; if (got) while (got[n].oid) n++; kx_out(" nfile=%d", got ? n : -1); }
+		return rc; }
 	if (!strcmp(c0, "pubfileinfo")) { KSI_PublicationsFile *p = pubfiles[atoi(tok[1])]; size_t sl = 0; KSI_LIST(KSI_CertificateRecord) *cl = NULL; KSI_LIST(KSI_PublicationRecord) *pl = NULL; int rc;
 		rc = KSI_PublicationsFile_getSignedDataLength(p, &sl); kx_out(" signedlen=%zu", sl);
 		KSI_PublicationsFile_getCertificates(p, &cl); KSI_PublicationsFile_getPublications(p, &pl);
